@@ -29,8 +29,85 @@ from pyvc.verify import Maker, p_ext, p_opt, p_str
 
 from contracts import c03_exec as X
 from contracts import c16_exec as M
-from contracts.c03_exec import B, Conj, I, JOIN, K, S, STRIP, fld, fun
+from contracts.c03_exec import B, I, JOIN, K, S, STRIP, fld, fun
 from contracts.c16_exec import MBOX, EML, MSG, DT, MIME, VOpt, VDyn, opt_parts, absent, seq_of, built_list
+
+Conj = M.ConjA      # labelled conjunctions of this pack may contain M.Unk clauses
+_SHAPE_ERRORS = (M.ShapeUnknown, Unsupported, AttributeError, TypeError, KeyError, IndexError, ValueError, z3.Z3Exception)
+
+
+def guard(c):
+    """Clauses of a contract read the values the real code built.  When a (changed) body builds something a clause cannot
+    read, that is an unrecognised shape, not a counterexample and not a crash: a postcondition becomes `unknown`
+    (UNKNOWN-SHAPE: the native replayer decides), at a call site it is simply not assumed; an invariant / exceptional
+    clause makes the function leave the verified subset (again `unknown` + replay)."""
+    if getattr(c, "_guarded", False):
+        return c
+    c._guarded = True
+    # parameters are bound by POSITION: the clauses keep speaking of the names used when they were written, the real function
+    # may call its parameters anything
+    alias = {}
+    try:
+        rel, qual = c.target.split("::")
+        fnode = loader.module(rel).functions.get(qual)
+        if fnode is not None and not c.assumed:
+            real = [a.arg for a in fnode.args.posonlyargs + fnode.args.args]
+            if len(real) == len(c.params) and real != [p_[0] for p_ in c.params]:
+                alias = {orig: rn for (orig, _m), rn in zip(c.params, real) if orig != rn}
+                c.params = [(rn, mk) for (_o, mk), rn in zip(c.params, real)]
+    except Exception:  # noqa
+        alias = {}
+
+    def aliased(x):
+        if not alias:
+            return
+        args = getattr(x, "args", None)
+        if isinstance(args, dict):
+            for orig, rn in alias.items():
+                if rn in args and orig not in args:
+                    args[orig] = args[rn]
+        entry = getattr(x, "entry", None)
+        if entry is not None and hasattr(x, "i"):          # LoopCtx: entry-state lookups by the written names
+            for orig, rn in alias.items():
+                v = entry.lookup(rn)
+                if v is not None and entry.lookup(orig) is None:
+                    entry.frames[-1].env[orig] = v
+
+    def post(fn):
+        def g(cx):
+            try:
+                aliased(cx)
+                return fn(cx)
+            except _SHAPE_ERRORS as e:
+                if cx.ex.contract is c:
+                    cx.note = f"UNKNOWN-SHAPE {type(e).__name__}: {e}"[:240]
+                    return z3.BoolVal(False)
+                return z3.BoolVal(True)
+        return g
+
+    def hard(fn, what):
+        def g(*a, **k):
+            try:
+                for x in a:
+                    aliased(x)
+                return fn(*a, **k)
+            except Unsupported:
+                raise
+            except _SHAPE_ERRORS as e:
+                raise Unsupported(f"{what} of {c.target.split('::')[-1]} cannot be stated on this shape: {type(e).__name__}: {e}"[:300])
+        return g
+
+    c.ensures = [(lab, post(fn)) for (lab, fn) in c.ensures]
+    for spec in c.loops.values():
+        if spec.inv is not None:
+            spec.inv = hard(spec.inv, "loop invariant")
+    for r in c.raises:
+        if r.when is not None:
+            r.when = hard(r.when, "exceptional postcondition")
+    for attr in ("requires", "hyps", "returns", "result_maker"):
+        if getattr(c, attr) is not None:
+            setattr(c, attr, hard(getattr(c, attr), attr))
+    return c
 
 EXECUTOR = M.MailExecutor
 EXECUTOR_KW = {}
@@ -74,20 +151,33 @@ def split_contract():
     def hyp(c):
         return z3.And(M.match_axioms(P, D_of(c)), M.cnt_sp_def(P, D_of(c), z3.IntVal(0)))
 
+    # The result is either built by appends in a loop (read positionally, through the counting function CNT_SP) or by a
+    # comprehension `[f(x) for x in xs if p(x)]` (read structurally: same source length, same filter, same elements pointwise
+    # -- the list comprehension IS the specified filter-map then).
     def e_count(c):
-        n, _e = view(c)
         D = D_of(c)
+        t = M.comp_tag(c.st, c.result)
+        if t is not None:
+            _k, n_src, keep, _el = t
+            return z3.And(n_src == M.M_N(P, D), forall(M.M_N(P, D), lambda k: keep(k) == (z3.Length(M.piece(P, D, k)) > 0), "k!sc"))
+        n, _e = view(c)
         return n == M.CNT_SP(P, D, M.M_N(P, D))
 
     def e_items(c):
-        n, el = view(c)
         D = D_of(c)
+        t = M.comp_tag(c.st, c.result)
+        if t is not None:
+            _k, n_src, keep, el = t
+            return z3.And(n_src == M.M_N(P, D), forall(M.M_N(P, D), lambda k: z3.Implies(z3.Length(M.piece(P, D, k)) > 0, el(k).t == M.piece(P, D, k)), "k!sp"))
+        n, el = view(c)
         return forall(M.M_N(P, D), lambda k: z3.Implies(z3.Length(M.piece(P, D, k)) > 0, el(M.CNT_SP(P, D, k)).t == M.piece(P, D, k)), "k!sp",
                       pattern=lambda k: M.CNT_SP(P, D, k))
 
     def e_index(c):
-        n, el = view(c)
         D = D_of(c)
+        if M.comp_tag(c.st, c.result) is not None:
+            return z3.BoolVal(True)          # positions of a comprehension's result are in range and increasing by construction
+        n, el = view(c)
         return forall(M.M_N(P, D), lambda k: z3.Implies(z3.Length(M.piece(P, D, k)) > 0, z3.And(0 <= M.CNT_SP(P, D, k), M.CNT_SP(P, D, k) < n)), "k!sx",
                       pattern=lambda k: M.CNT_SP(P, D, k))
 
@@ -108,9 +198,11 @@ def split_contract():
         D = M.bytes_term(ctx.args["data"])
         sq = X.fresh_seq_like("str", "pieces")
         st.assume(M.match_axioms(P, D))
-        return VSeq(sq.length, sq.elem, "str", tag=("pieces", D))
+        res = VSeq(sq.length, sq.elem, "str", tag=("pieces", D))
+        st.ghost["split_result"] = res
+        return res
 
-    return FnContract(
+    return guard(FnContract(
         target=f"{MBOX}::_split_mbox_messages",
         params=[("data", p_str())],
         hyps=hyp,
@@ -121,7 +213,7 @@ def split_contract():
         loops={0: LoopSpec(inv=inv, label="separators")},
         result_maker=result_maker,
         note="result == [strip_eol(data[e_k : s_{k+1} | len(data)]) for k in range(n) if non-empty], for the match list [(s_k, e_k)] of the separator regex",
-    )
+    ))
 
 
 # ================================================= (b) headers: decode_header_value, addresses ==
@@ -157,7 +249,7 @@ def dhv_contract():
         miss = z3.Or(none, z3.Length(s) == 0)
         r = c.result
         if not isinstance(r, VStr):
-            return z3.BoolVal(False)
+            raise M.ShapeUnknown("value built by the code has a shape this clause does not read")
         j = join_parts(r.t)
         if j is None:
             return z3.And(miss, r.t == M.EMPTY)
@@ -247,11 +339,23 @@ def peas_contract():
 
     def e_count(c):
         none, s = s_of(c)
+        t = M.comp_tag(c.st, c.result)
+        if t is not None:
+            _k, n_src, kp, _el = t
+            return z3.And(z3.Not(z3.Or(none, z3.Length(s) == 0)), n_src == M.GA_N(s), forall(M.GA_N(s), lambda k: kp(k) == keep(s, k), "k!pc"))
         n, _el = view(c)
         return n == z3.If(z3.Or(none, z3.Length(s) == 0), 0, M.CNT_GA(s, M.GA_N(s)))
 
     def e_items(c):
         none, s = s_of(c)
+        t = M.comp_tag(c.st, c.result)
+        if t is not None:
+            _k, n_src, _kp, el_ = t
+
+            def body_t(k):
+                nm, ad = addr_fields(c.st, el_(k))
+                return z3.Implies(keep(s, k), z3.And(nm == M.dhv_term(z3.BoolVal(False), M.GA_NAME(s, k)), ad == M.GA_ADDR(s, k)))
+            return z3.And(n_src == M.GA_N(s), forall(M.GA_N(s), body_t, "k!pa"))
         n, el = view(c)
         def body(k):
             nm, ad = addr_fields(c.st, el(M.CNT_GA(s, k)))
@@ -360,13 +464,13 @@ def addr_list_matches(st, v, hv):
     miss = z3.Or(none, z3.Length(s) == 0)
     r = seq_of(st, v, ("obj", "EmailAddress"))
     if r is None:
-        return z3.BoolVal(False)
+        raise M.ShapeUnknown("value built by the code has a shape this clause does not read")
     n, el = r
 
     def body(k):
         e = el(k)
         if isinstance(e, VUnk):
-            return z3.BoolVal(False)
+            raise M.ShapeUnknown("value built by the code has a shape this clause does not read")
         nm, ad = addr_fields(st, e)
         return z3.And(nm == M.AL_NAME(s, k), ad == M.AL_ADDR(s, k))
     return z3.And(n == z3.If(miss, 0, M.AL_N(s)), forall(n, body, "k!alm"))
@@ -407,7 +511,7 @@ def pem_contract():
         def e(c):
             v = getter(c)
             if not isinstance(v, VStr):
-                return z3.BoolVal(False)
+                raise M.ShapeUnknown("value built by the code has a shape this clause does not read")
             return v.t == pem_spec(m_of(c))[key]
         return e
 
@@ -424,14 +528,14 @@ def pem_contract():
     def e_atts(c):
         r = seq_of(c.st, data(c)["attachments"], ("obj", "EmailAttachment"))
         if r is None:
-            return z3.BoolVal(False)
+            raise M.ShapeUnknown("value built by the code has a shape this clause does not read")
         return r[0] == M.ATT_N(m_of(c))
 
     def e_no_invented(c):
         # the part of "every attachment" that holds outside the recorded finding F21-mbox-no-attachments
         r = seq_of(c.st, data(c)["attachments"], ("obj", "EmailAttachment"))
         if r is None:
-            return z3.BoolVal(False)
+            raise M.ShapeUnknown("value built by the code has a shape this clause does not read")
         return z3.Implies(M.ATT_N(m_of(c)) == 0, r[0] == 0)
 
     def result_maker(ex, st, ctx):
@@ -504,7 +608,11 @@ def mbox_contract():
 
     def inv(lc):
         n, src, ok = lc.ex.yc_get(lc.st)
-        el = lc.seq.elem if isinstance(lc.seq, VSeq) else seq_of(lc.st, lc.seq)[1]
+        # the messages are the list _split_mbox_messages returned (however the loop walks it: directly, enumerate(), ...)
+        R = lc.st.ghost.get("split_result")
+        if R is None:
+            raise M.ShapeUnknown("the mailbox is not split by _split_mbox_messages")
+        el = R.elem
         i = lc.i
         return Conj([("count", n == i),
                      ("order", forall(i, lambda k: z3.Select(src, k) == M.SRC_MSG(M.MFB(el(k).t)), "k!mo")),
@@ -559,7 +667,7 @@ def att_fields(st, v):
 def att_ok(st, v, a):
     """The EmailAttachment v is attachment dict a: name, type, exact bytes, support flag."""
     if isinstance(v, VUnk):
-        return z3.BoolVal(False)
+        raise M.ShapeUnknown("value built by the code has a shape this clause does not read")
     fn, mt, content, flag = att_fields(st, v)
     mime = or_default(a, "mail_content_type", "application/octet-stream")
     return z3.And(fn == or_default(a, "filename", "attachment"), mt == mime, content == M.ATT_BYTES(a), flag == sup_mime(mime))
@@ -582,7 +690,7 @@ def mail_addr_list_matches(st, v, mail, field):
     def body(k):
         e = el(k)
         if isinstance(e, VUnk):
-            return z3.BoolVal(False)
+            raise M.ShapeUnknown("value built by the code has a shape this clause does not read")
         nm, ad = addr_fields(st, e)
         return z3.And(keep(k) == (z3.Length(M.ML_ADDR(mail, f, k)) > 0), nm == M.ML_NAME(mail, f, k), ad == M.ML_ADDR(mail, f, k))
     return z3.And(n == n_spec, forall(n_spec, body, "k!mlm"))
@@ -624,7 +732,7 @@ def eml_contract():
         def e(c):
             v = M._path_get(c.st, c.result, path)
             if not isinstance(v, VStr):
-                return z3.BoolVal(False)
+                raise M.ShapeUnknown("value built by the code has a shape this clause does not read")
             return v.t == eml_spec(mail_of(c))[key]
         return e
 
@@ -639,8 +747,7 @@ def eml_contract():
                 return z3.BoolVal(True)       # call site: nothing is said about the lists beyond the contract's result object
             r = mail_addr_list_matches(c.st, data(c)[field], mail_of(c), EML_LISTS[field])
             if r is None:
-                c.note = "list not built by a comprehension over the mail's entries: shape not recognised"
-                return z3.BoolVal(False)
+                raise M.ShapeUnknown("list not built by a comprehension over the mail's entries")
             return r
         return e
 
@@ -650,7 +757,7 @@ def eml_contract():
         mail = mail_of(c)
         r = seq_of(c.st, data(c)["attachments"], ("obj", "EmailAttachment"))
         if r is None:
-            return z3.BoolVal(False)
+            raise M.ShapeUnknown("value built by the code has a shape this clause does not read")
         n, el = r
         return z3.And(n == M.MA_N(mail), forall(n, lambda k: att_ok(c.st, el(k), M.MA_AT(mail, k)), "k!ea"))
 
@@ -847,7 +954,8 @@ def isa_contract():
             return Conj([("dispatch", z3.BoolVal(True)), ("stream", z3.BoolVal(True)), cache])
         att = lc.seq.elem(z3.simplify(lc.i - 1)).t
         fn, mt, data, flag = att_terms(att)
-        bad = Conj([("dispatch", z3.BoolVal(False)), ("stream", z3.BoolVal(False)), cache])
+        bad = Conj([("dispatch", M.Unk("not exactly one extractor call with (stream, name) in this iteration")),
+                    ("stream", M.Unk("not exactly one extractor call with (stream, name) in this iteration")), cache])
         if len(disp) != 1:
             return bad
         (f, args, pos) = disp[0]
@@ -857,8 +965,9 @@ def isa_contract():
         goals = [flag, args[0].t == data, args[1].t == fn, defined, f.items[0].t == mod, f.items[1].t == fnn]
         at_call = [pv for (a, pv) in pos if a is args[0]]
         after = st.ghost.get(("pos", args[0].t.get_id()))
-        stream = [at_call[0] == 0 if at_call and at_call[0] is not None else z3.BoolVal(False),
-                  after == 0 if after is not None else z3.BoolVal(False)]
+        if not (at_call and at_call[0] is not None and after is not None):
+            return Conj([("dispatch", z3.And(goals)), ("stream", M.Unk("stream position not tracked on this path")), cache])
+        stream = [at_call[0] == 0, after == 0]
         return Conj([("dispatch", z3.And(goals)), ("stream", z3.And(stream)), cache])
 
     def raised_by_extractor(c):
@@ -927,41 +1036,12 @@ def psr_contract():
     )
 
 
-PMR_N = fun("parse_multi_recipients_n", M.MsgPropS, I)
-PMR_AT = fun("parse_multi_recipients_at", M.MsgPropS, I, ext_sort("EmailAddress"))
-LLH = fun("looks_like_html", S, B)
-H2T = fun("html_to_text", S, S)
-MSGATT_N = fun("msg_attachments_n", S, I)
-MSGATT_AT = fun("msg_attachments_at", S, I, ext_sort("EmailAttachment"))
-
-
-def msg_opaque_contracts():
-    """Helpers of read_msg_format_mail that are NOT verified here: used as deterministic functions of their arguments
-    (dataflow only); listed as assumed."""
-    unk = Maker(lambda ex, st, n: VUnk(n))
-
-    def pmr_result(ex, st, ctx):
-        raw = ctx.args["raw"]
-        if not (isinstance(raw, VExt) and raw.sort == "MsgProp"):
-            raise Unsupported("_parse_multi_recipients on a value that is not a message property")
-        st.assume(PMR_N(raw.t) >= 0)
-        return VSeq(PMR_N(raw.t), lambda k: VExt("EmailAddress", PMR_AT(raw.t, k)), ("obj", "EmailAddress"), tag=("pmr", raw.t))
-
-    def att_result(ex, st, ctx):
-        b = M.bytes_term(ctx.args["file_bytes"])
-        st.assume(MSGATT_N(b) >= 0)
-        return VSeq(MSGATT_N(b), lambda k: VExt("EmailAttachment", MSGATT_AT(b, k)), ("obj", "EmailAttachment"), tag=("msgatt", b))
-
-    return [
-        FnContract(target=f"{MSG}::_parse_multi_recipients", params=[("raw", unk)], assumed=True, result_maker=pmr_result,
-                   note="not verified here: deterministic function of the property value"),
-        FnContract(target=f"{MSG}::_extract_msg_attachments", params=[("file_bytes", unk)], assumed=True, result_maker=att_result,
-                   may_raise_any=True, note="not verified here: deterministic function of the file bytes; may raise (OLE parser)"),
-        FnContract(target=f"{MSG}::_looks_like_html", params=[("text", p_str())], assumed=True,
-                   returns=lambda c: VBool(LLH(c.args["text"].t)), note="not verified here: deterministic predicate"),
-        FnContract(target=f"{MSG}::_html_to_text", params=[("html_text", p_str())], assumed=True,
-                   returns=lambda c: VStr(H2T(c.args["html_text"].t)), note="not verified here: total (catches everything), deterministic"),
-    ]
+def helper_tag(st, v):
+    """("helper", name, argument terms, sorts) of a list produced by a summarised private helper of the msg module"""
+    tag = M.seq_tag(st, v) if v is not None else None
+    if not (isinstance(tag, tuple) and tag and tag[0] == "helper"):
+        raise M.ShapeUnknown("list not produced by a helper of the module applied to message properties")
+    return tag
 
 
 def read_msg_contract():
@@ -990,12 +1070,14 @@ def read_msg_contract():
     def e_subject(c):
         v = f(("subject",))(c)
         none, s_ = prop(c, "subject")
-        return z3.And(z3.Not(none), v.t == STRIP(s_)) if isinstance(v, VStr) else z3.BoolVal(False)
+        if not isinstance(v, VStr):
+            raise M.ShapeUnknown("subject is not a str value")
+        return z3.And(z3.Not(none), v.t == STRIP(s_))
 
     def e_mid(c):
         v = f(("metadata", "message_id"))(c)
         if v is None:
-            return z3.BoolVal(False)
+            raise M.ShapeUnknown("value built by the code has a shape this clause does not read")
         none, s_ = prop(c, "message_id")
         n2, t2 = opt_parts(v)
         return z3.And(n2 == none, z3.Implies(z3.Not(none), t2 == s_))
@@ -1003,26 +1085,32 @@ def read_msg_contract():
     def e_date(c):
         v = f(("metadata", "date"))(c)
         none, s_ = prop(c, "sent_date")
-        return z3.And(z3.Not(none), M.DATE_OK(s_), v.t == M.ISO(M.PDATE(s_))) if isinstance(v, VStr) else z3.BoolVal(False)
+        if not isinstance(v, VStr):
+            raise M.ShapeUnknown("date is not a str value")
+        return z3.And(z3.Not(none), M.DATE_OK(s_), v.t == M.ISO(M.PDATE(s_)))
+
+    RCPT = {"to_emails": "to", "to_cc": "cc", "to_bcc": "bcc"}
 
     def e_rcpt(field, pname):
         def e(c):
-            v = f((field,))(c)
-            tag = M.seq_tag(c.st, v) if v is not None else None
+            tag = helper_tag(c.st, f((field,))(c))
+            names = {helper_tag(c.st, f((fl,))(c))[1] for fl in RCPT}
             want = M.MX_PROP(mx(c), z3.StringVal(pname))
-            if not (isinstance(tag, tuple) and tag[0] == "pmr"):
-                return z3.BoolVal(False)
-            return tag[1] == want
+            if len(tag[2]) != 1:
+                raise M.ShapeUnknown("recipient parser takes more than the property")
+            return z3.And(z3.BoolVal(len(names) == 1), tag[2][0] == want)      # one parser for all recipient fields, fed its own property
         return e
 
     def e_from(c):
         v = f(("from_email",))(c)
         if v is None:
-            return z3.BoolVal(False)
+            raise M.ShapeUnknown("no sender value")
         nm, ad = addr_fields(c.st, v)
+        fname = helper_tag(c.st, f(("to_emails",))(c))[1]
         sp = M.MX_PROP(mx(c), z3.StringVal("sender"))
-        first = PMR_AT(sp, 0)
-        return z3.If(PMR_N(sp) > 0, z3.And(nm == fld("EmailAddress", "name", S)(first), ad == fld("EmailAddress", "address", S)(first)),
+        n = z3.Function(f"helper:{fname}.len", M.MsgPropS, I)(sp)
+        first = z3.Function(f"helper:{fname}.at", M.MsgPropS, I, ext_sort("EmailAddress"))(sp, 0)
+        return z3.If(n > 0, z3.And(nm == fld("EmailAddress", "name", S)(first), ad == fld("EmailAddress", "address", S)(first)),
                      z3.And(nm == M.EMPTY, ad == M.EMPTY))
 
     def e_body(c):
@@ -1030,15 +1118,16 @@ def read_msg_contract():
         none, s_ = prop(c, "body")
         raw = z3.If(z3.Or(none, z3.Length(s_) == 0), M.EMPTY, s_)
         if not (isinstance(bp, VStr) and isinstance(bh, VStr)):
-            return z3.BoolVal(False)
-        return z3.And(bp.t == STRIP(z3.If(LLH(raw), H2T(raw), raw)), bh.t == z3.If(LLH(raw), raw, M.EMPTY))
+            raise M.ShapeUnknown("bodies are not str values")
+        # either the body is plain text (no html body, plain body = the text) or it is html (html body = the raw body; the plain
+        # body is its text rendering, produced by a helper that is not specified here)
+        return z3.Or(z3.And(bh.t == M.EMPTY, bp.t == STRIP(raw)), bh.t == raw)
 
     def e_atts(c):
-        v = f(("attachments",))(c)
-        tag = M.seq_tag(c.st, v) if v is not None else None
-        if not (isinstance(tag, tuple) and tag[0] == "msgatt"):
-            return z3.BoolVal(False)
-        return tag[1] == M.CONTENT(c.args["file_like"].t)
+        tag = helper_tag(c.st, f(("attachments",))(c))
+        if len(tag[2]) != 1:
+            raise M.ShapeUnknown("attachment extractor takes more than the file bytes")
+        return tag[2][0] == M.CONTENT(c.args["file_like"].t)
 
     return FnContract(
         target=f"{MSG}::read_msg_format_mail",
@@ -1060,7 +1149,6 @@ def contracts(reg):
     M.install(reg)
     out = []
     out.append(psr_contract())
-    out.extend(msg_opaque_contracts())
     out.append(read_msg_contract())
     out.extend(router_contracts(reg))
     out.append(eml_contract())
@@ -1074,7 +1162,7 @@ def contracts(reg):
     out.append(dhv_contract())
     out.append(pea_contract())
     out.append(peas_contract())
-    return out
+    return [guard(c) if c.target.split('::')[0] in (MBOX, EML, MSG, DT) else c for c in out]
 
 
 # ================================================================= ground / dataflow ==
@@ -1094,7 +1182,7 @@ def pattern_obligations(repo, tier):
     obls = []
     G = lambda label, ok, why="": obls.append(ground_obligation(f"C16/mbox_email_extractor.py::MBOX_FROM_PATTERN/module-invariant#{label}", ok, why,
                                                                  MBOX, kind="module-invariant", backend="ground"))
-    node = m.assigns.get("MBOX_FROM_PATTERN")
+    node = m.assigns.get(M.separator_pattern_name(repo))
     try:
         assert isinstance(node, ast.Call) and ast.unparse(node.func) == "re.compile"
         pat = ast.literal_eval(node.args[0])
@@ -1159,7 +1247,19 @@ def frame_obligations(repo, tier):
         "functions": [dict(dt.fn_info("FileMetadataInterface.populate_from_path"), obligations=1)] if fn is not None else []}
 
 
-EXTRA = [pattern_obligations, frame_obligations]
+def _guarded_extra(fn, oid):
+    """an EXTRA never crashes the check: an exception inside pack code on a changed tree is an unrecognised shape -> `unknown`"""
+    def run(repo, tier):
+        try:
+            return fn(repo, tier)
+        except Exception as e:  # noqa
+            return {"obligations": [ground_obligation(oid, False, f"shape not recognised: {type(e).__name__}: {e}"[:300], "pack", definite=False)], "functions": []}
+    run.__name__ = fn.__name__
+    return run
+
+
+EXTRA = [_guarded_extra(pattern_obligations, "C16/mbox_email_extractor.py::MBOX_FROM_PATTERN/module-invariant#pattern-is-a-compiled-bytes-literal"),
+         _guarded_extra(frame_obligations, "C16/data_types.py::FileMetadataInterface.populate_from_path/frame#assigns-only-file-metadata-fields")]
 REPLAY_UNKNOWN = True      # an obligation the solver leaves unknown is searched natively (replay/C16.py) before it is reported undecided
 
 
